@@ -1,5 +1,5 @@
 (* C10: feedback blocks keep their repeated layers weight-tied. *)
-From NV Require Import Prelude Num Random Tensor Activation Objective Optimizer Layers Network.
+From NV Require Import Prelude Num Random Tensor Activation Objective Optimizer Layers Network Learn.
 From NV.Theory Require Import Monad.
 Set Implicit Arguments.
 
@@ -403,3 +403,145 @@ Section C10.
       exact (net_update_tied _ _ _ _ (blocks_weaken _ (fun b Hb => proj1 Hb) Hn) E).
   Qed.
 End C10.
+
+(* ---- an invariant of the state that every step and every validation preserves holds after the
+        generic epoch loop, whatever the data, batches, losses and stopping point ---- *)
+Section LoopInv.
+  Variable N : Num.
+  Variable pmap : pmap_t.
+  Variables (S X G : Type).
+  Variable sample : S -> X -> res (G * T N).
+  Variable gadd : G -> G -> res G.
+  Variable step : Z -> S -> G -> res S.
+  Variable valid : S -> res (S * (T N * T N)).
+  Variable Inv : S -> Prop.
+  Hypothesis Hstep : forall e s g s', Inv s -> step e s g = Ok s' -> Inv s'.
+  Hypothesis Hvalid : forall s s' r, Inv s -> valid s = Ok (s', r) -> Inv s'.
+
+  Lemma run_batch_inv e s group s' l :
+    Inv s -> run_batch N pmap sample gadd step e s group = Ok (s', l) -> Inv s'.
+  Proof.
+    intros Hi H. unfold run_batch in H.
+    match type of H with (do rs <- ?F; _) = _ => destruct F as [rs|]; [|discriminate] end.
+    cbn [bind] in H.
+    match type of H with (check ?c else _; _) = _ => destruct c; [|discriminate] end.
+    destruct rs as [|r0 rest]; [discriminate|].
+    match type of H with (do g <- ?F; _) = _ => destruct F as [g|]; [|discriminate] end.
+    cbn [bind] in H. destruct (step e s g) as [s1|] eqn:Es; [|discriminate].
+    cbn [bind] in H. injection H as <- _. eapply Hstep; eassumption.
+  Qed.
+
+  Lemma run_epoch_inv e bs : forall s s' l,
+    Inv s -> run_epoch N pmap sample gadd step e s bs = Ok (s', l) -> Inv s'.
+  Proof.
+    intros s s' l Hi H. unfold run_epoch in H.
+    match type of H with (do r <- ?F; _) = _ => destruct F as [r|] eqn:E; [|discriminate] end.
+    cbn [bind] in H. injection H as <- _.
+    assert (G0 : Inv (fst (s, @zero N))) by exact Hi.
+    revert E G0. generalize (s, @zero N). clear Hi.
+    induction bs as [|b bs IH]; intros st E G0; cbn [foldM] in E.
+    - injection E as <-. exact G0.
+    - destruct (run_batch N pmap sample gadd step e (fst st) b) as [[s1 l1]|] eqn:Eb; [|discriminate].
+      cbn [bind fst snd] in E. refine (IH _ E _). cbn [fst]. eapply run_batch_inv; eassumption.
+  Qed.
+
+  Lemma epochs_loop_inv fuel : forall e hv th bs s h s' h',
+    Inv s -> epochs_loop pmap sample gadd step valid fuel e hv th bs s h = Ok (s', h') -> Inv s'.
+  Proof.
+    induction fuel as [|k IH]; intros e hv th bs s h s' h' Hi H; cbn [epochs_loop] in H.
+    - injection H as <- _. exact Hi.
+    - destruct (run_epoch N pmap sample gadd step e s bs) as [[s1 l]|] eqn:Er; [|discriminate].
+      cbn [bind] in H. assert (Hi1 : Inv s1) by (eapply run_epoch_inv; eassumption).
+      destruct hv.
+      + destruct (valid s1) as [[s2 r]|] eqn:Ev; [|discriminate]. cbn [bind fst snd] in H.
+        assert (Hi2 : Inv s2) by (eapply Hvalid; eassumption).
+        match type of H with (do stop <- ?F; _) = _ => destruct F as [stop|]; [|discriminate] end.
+        cbn [bind] in H. destruct stop.
+        * injection H as <- _. exact Hi2.
+        * exact (IH _ _ _ _ _ _ _ _ Hi2 H).
+      + cbn [bind] in H.
+        match type of H with (do stop <- ?F; _) = _ => destruct F as [stop|]; [|discriminate] end.
+        cbn [bind] in H. destruct stop.
+        * injection H as <- _. exact Hi1.
+        * exact (IH _ _ _ _ _ _ _ _ Hi1 H).
+  Qed.
+End LoopInv.
+
+(* ---- learn: every feedback block of the trained network is tied ---- *)
+Section LearnTied.
+  Variable N : Num.
+  Notation OK := (fun b : feedback N => wfb b /\ Tied b).
+
+  Lemma kind_set_training t (x : blayer N) : kind (blayer_set_training t x) = kind x.
+  Proof. destruct x; reflexivity. Qed.
+  Lemma weights_set_training t (x : blayer N) : blayer_weights (blayer_set_training t x) = blayer_weights x.
+  Proof. destruct x; reflexivity. Qed.
+
+  Lemma feedback_training_ok (b : feedback N) t : OK b -> OK (feedback_training b t).
+  Proof.
+    intros [[Hd Hh] Ht]. unfold feedback_training, wfb, Tied. cbn [f_layers f_coupled set_f_layers].
+    split; [split|].
+    - exact Hd.
+    - eapply Forall_impl; [|exact Hh]. intros c Hc i j Hi Hj.
+      rewrite !nth_error_map. specialize (Hc i j Hi Hj).
+      destruct (nth_error (f_layers b) i), (nth_error (f_layers b) j); cbn [option_map] in *;
+        rewrite ?kind_set_training; try exact Hc; try discriminate.
+    - eapply Forall_impl; [|exact Ht]. intros c Hc i j Hi Hj.
+      rewrite !nth_error_map. specialize (Hc i j Hi Hj).
+      destruct (nth_error (f_layers b) i), (nth_error (f_layers b) j); cbn [option_map] in *;
+        rewrite ?weights_set_training; try exact Hc; try discriminate.
+  Qed.
+
+  Lemma layer_set_training_ok t (l : layer N) :
+    match l with LFeedback b => OK b | _ => True end ->
+    match layer_set_training t l with LFeedback b => OK b | _ => True end.
+  Proof. destruct l; cbn [layer_set_training blayer_set_training lift_b]; try exact (fun _ => I). apply feedback_training_ok. Qed.
+
+  Lemma set_all_training_ok t (n : network N) :
+    blocks OK (n_layers n) -> blocks OK (n_layers (set_all_training t n)).
+  Proof.
+    unfold set_all_training, blocks. cbn [n_layers set_layers]. intros H.
+    apply Forall_forall. intros l Hl. apply in_map_iff in Hl. destruct Hl as (l0 & <- & Hl0).
+    apply layer_set_training_ok. exact (proj1 (Forall_forall _ _) H l0 Hl0).
+  Qed.
+
+  Lemma validate_clear_ok (ls : list (layer N)) : forall tr,
+    blocks OK ls -> blocks OK (fst (validate_clear ls tr)).
+  Proof.
+    induction ls as [|l ls IH]; intros tr H; [exact H|].
+    inversion H as [|? ? Hl Hls]; subst.
+    destruct l; cbn [validate_clear];
+      match goal with |- context [validate_clear ls ?t] =>
+        specialize (IH t Hls); destruct (validate_clear ls t) as [rest' t'] end;
+      cbn [fst] in *; constructor; try exact IH;
+      first [exact I | apply layer_set_training_ok; exact Hl].
+  Qed.
+
+  Lemma validate_ok p (n n' : network N) xs ts tol r :
+    blocks OK (n_layers n) -> validate p n xs ts tol = Ok (n', r) -> blocks OK (n_layers n').
+  Proof.
+    intros Hn H. unfold validate in H.
+    pose proof (validate_clear_ok false Hn) as Hc.
+    destruct (validate_clear (n_layers n) false) as [ls training]. cbn [fst] in Hc.
+    match type of H with (do rs <- ?F; _) = _ => destruct F as [rs|]; [|discriminate] end.
+    cbn [bind] in H. injection H as <- _.
+    destruct training; [apply set_all_training_ok|]; cbn [n_layers set_layers]; exact Hc.
+  Qed.
+
+  (* after learn - all epochs or early stopping, any data, batch size, optimizer, with or without
+     validation data - every feedback block of the returned network is well-formed and tied *)
+  Theorem learn_keeps_blocks_tied p (n n' : network N) xs ts val batch epochs h :
+    blocks OK (n_layers n) -> learn p n xs ts val batch epochs = Ok (n', h) -> blocks OK (n_layers n').
+  Proof.
+    intros Hn H. unfold learn in H. destruct (negb (batch =? 0)); [|discriminate].
+    match type of H with (do r <- ?E; _) = _ => destruct E as [[s hh]|] eqn:El; [|discriminate] end.
+    cbn [bind fst snd] in H. injection H as <- _.
+    apply set_all_training_ok.
+    refine (@epochs_loop_inv N p _ _ _ _ _ _ _ (fun m => blocks OK (n_layers m)) _ _ _ _ _ _ _ _ _ _ _ _ El).
+    - intros e m g m' Hm Hs. unfold net_step in Hs.
+      exact (net_update_tied _ _ _ _ (blocks_weaken _ (fun b Hb => proj1 Hb) Hm) Hs).
+    - intros m m' r Hm Hv. destruct val as [[[vi vt] th]|]; [|discriminate].
+      exact (validate_ok _ _ _ _ _ Hm Hv).
+    - apply set_all_training_ok. exact Hn.
+  Qed.
+End LearnTied.
